@@ -515,9 +515,9 @@ pub fn prop() -> Prop {
         subs: vec![
             Sub { name: "table", kind: Kind::Exhaustive(table) },
             Sub { name: "table-fn-numbers", kind: Kind::Exhaustive(table_fn_numbers) },
-            Sub { name: "random-deep", kind: Kind::Random { f: random_deep, quick: 20_000, thorough: 800_000, len: 300 } },
-            Sub { name: "random-numbers", kind: Kind::Random { f: random_numbers, quick: 20_000, thorough: 800_000, len: 32 } },
-            Sub { name: "random-escaped-literals", kind: Kind::Random { f: random_escaped_literals, quick: 8_000, thorough: 200_000, len: 64 } },
+            Sub { name: "random-deep", kind: Kind::Random { f: random_deep, quick: 100_000, thorough: 2_000_000, len: 300 } },
+            Sub { name: "random-numbers", kind: Kind::Random { f: random_numbers, quick: 100_000, thorough: 2_000_000, len: 32 } },
+            Sub { name: "random-escaped-literals", kind: Kind::Random { f: random_escaped_literals, quick: 40_000, thorough: 800_000, len: 64 } },
         ],
         direct: Some(direct),
         selftest: Some(crate::rfc::selftest),
